@@ -71,7 +71,7 @@ pub fn rr<S: Src, const NB: usize>(s: &mut S) {
 }
 
 pub fn bye<S: Src, const NS: usize>(s: &mut S) {
-    let reason = Text::<300>::draw_len(s, 300);
+    let reason = Text::<300>::draw_len_utf8(s, 300);
     let c = ByeCfg::<NS, 300>::draw_with(s, reason);
     let b = c.builder();
     let r = b.calculate_size();
@@ -155,7 +155,7 @@ pub fn kf_unknown_total_size<S: Src>(s: &mut S) {
 
 fn draw_item<S: Src>(s: &mut S) -> ItemCfg<300> {
     let type_ = s.u8();
-    let value = Text::<300>::draw_len(s, 300);
+    let value = Text::<300>::draw_len_utf8(s, 300);
     let prefix = Blob::<300>::draw_len(s, 300);
     ItemCfg { type_, value, prefix }
 }
